@@ -62,3 +62,122 @@ var CfgC13 = reg(&MachineCfg{
 		return &world.Step{Kind: "walks", Walks: ws}
 	},
 })
+
+// ---- DID ----------------------------------------------------------------------------------------
+
+var didGens = []interface{}{"did", 74, "commit", 14, "crash", 3, "restart", 2, "export", 3, "bank", 2, "aol", 2}
+
+var CfgC03 = reg(&MachineCfg{
+	Prop: "C03", Gens: didGens,
+	Bias: map[string]int{"right-signers": 92, "exec": 3, "right-proof": 55, "did-replay": 6},
+	Rule: "DID state machine: create/update/deactivate with independently chosen (signing key, signed content, signed sequence, quoted method id), key rotations, keys listed only as verification methods or under other relationships, ed25519 keys, unknown type labels, any relayer; oracle = harness proof ledger + did-store diff after every DeliverTx; non-trivial = an accepted key rotation followed by a refused attempt, or an attempt with a key outside authentication",
+	NonTrivial: func(w *world.World) bool {
+		return lab(w, "did key rotation") > 0 && lab(w, "did refused attempt") > 0
+	},
+})
+
+var CfgC04 = reg(&MachineCfg{
+	Prop: "C04", Gens: didGens,
+	Bias: map[string]int{"right-signers": 94, "exec": 2, "right-proof": 72, "did-replay": 22, "did-create": 22},
+	Rule: "DID machine plus a replay action that re-submits any earlier accepted message (same inner fields, possibly another relayer/sign mode/block); oracle = sequence model (0 on create, +1 per accepted update/deactivate, unchanged otherwise) on store and read operation, and refusal of every replay; non-trivial = >=2 accepted updates and >=1 refused replay",
+	NonTrivial: func(w *world.World) bool {
+		return lab(w, "did updated") >= 2 && lab(w, "did replay refused") > 0
+	},
+})
+
+var CfgC05 = reg(&MachineCfg{
+	Prop: "C05",
+	Gens: []interface{}{"did", 70, "commit", 14, "crash", 4, "restart", 4, "export", 6, "bank", 2},
+	Bias: map[string]int{"right-signers": 94, "exec": 2, "right-proof": 75, "did-deactivate": 25, "aim-tomb": 45, "did-replay": 8},
+	Rule: "DID machine weighted to deactivation followed by long suffixes of create/update/deactivate on the tombstone with former and fresh keys, restarts, crashes and export/import; oracle = tombstone permanence (read says not found, entry byte-identical, every later message refused) and create-on-existing refused; non-trivial = a deactivation followed by >=3 attempts on the tombstone incl. one with a harness-made proof and a restart/export afterwards",
+	NonTrivial: func(w *world.World) bool {
+		return lab(w, "did deactivated") > 0 && lab(w, "did attempt on tombstone") >= 3 && lab(w, "did attempt on tombstone with harness-made proof") > 0 &&
+			(lab(w, "export_import")+lab(w, "crash in block")+lab(w, "crash:between") > 0)
+	},
+})
+
+var CfgC11 = reg(&MachineCfg{
+	Prop: "C11", Gens: didGens,
+	Bias: map[string]int{"right-signers": 95, "exec": 2, "right-proof": 85, "did-mismatch": 40},
+	Rule: "DID machine in which the DID field, the document id and the signed payload are chosen independently (own, other user's, unregistered DIDs) and accepted messages are replayed under other DID fields; oracle = for every active entry under d the stored/read/exported document id is d; non-trivial = >=1 mismatching message carrying an otherwise valid proof",
+	NonTrivial: func(w *world.World) bool {
+		return lab(w, "did mismatching id refused")+w.Obs["c11 mismatching id accepted (open finding)"] > 0
+	},
+})
+
+// ---- PNFT ---------------------------------------------------------------------------------------
+
+var CfgC06 = reg(&MachineCfg{
+	Prop: "C06",
+	Gens: []interface{}{"pnft", 70, "commit", 12, "authz", 10, "crash", 2, "restart", 2, "bank", 2, "export", 2},
+	Bias: map[string]int{"right-signers": 62, "exec": 18},
+	Rule: "PNFT state machine: the seven message types with actors chosen independently of signers, hand-over chains, burn and re-mint, former owners and creators, ghost receivers, upper-case spellings, authz grant/exec; oracle = transition validity (actor is the current owner and stands behind the tx) + full decoded-store agreement after every DeliverTx; non-trivial = an ownership hand-over followed by a refused attempt of the former owner",
+	NonTrivial: func(w *world.World) bool {
+		return lab(w, "pnft denom handed over")+lab(w, "pnft transferred") > 0 && lab(w, "pnft former owner refused") > 0
+	},
+})
+
+var CfgC12 = reg(&MachineCfg{
+	Prop: "C12",
+	Gens: []interface{}{"pnft", 76, "commit", 16, "crash", 2, "export", 3, "bank", 1, "walks", 2},
+	Bias: map[string]int{"right-signers": 93, "exec": 3, "adversarial-ids": 1},
+	Rule: "PNFT machine over adversarial identifiers (prefixes of one another, separators, invalid UTF-8, 300-byte ids, NUL while not excluded by an open finding); after every tx the decoded store equals the model, after every commit every single-item view and listing (tokens of denom, by owner, denoms paged, denoms by owner) is compared for all pool arguments; completeness: a fresh pair minted by the denom owner is accepted; non-trivial = >=2 denoms, >=3 tokens minted, a transfer and a burn",
+	NonTrivial: func(w *world.World) bool {
+		return lab(w, "pnft denom created") >= 2 && lab(w, "pnft minted") >= 3 && lab(w, "pnft transferred") > 0 && lab(w, "pnft burned") > 0
+	},
+	Step: func(g *G, kind string) *world.Step {
+		if kind != "walks" {
+			return nil
+		}
+		var ws []world.PageReq
+		for i := 0; i < 3; i++ {
+			ws = append(ws, world.PageReq{Limit: pick(g, "limit", []uint64{0, 1, 2, 3, 100}), Reverse: g.chance("reverse", 40),
+				CountTotal: g.chance("count", 50), KeyStyle: g.chance("keystyle", 50)})
+		}
+		return &world.Step{Kind: "walks", Walks: ws}
+	},
+})
+
+// ---- world-level --------------------------------------------------------------------------------
+
+var agreement = []string{"C01", "C13", "C03", "C04", "C05", "C12"}
+
+var CfgC08 = reg(&MachineCfg{
+	Prop: "C08", Also: agreement,
+	Gens: []interface{}{"aol", 26, "did", 26, "pnft", 30, "commit", 8, "export", 8, "bank", 2},
+	Bias: map[string]int{"right-signers": 95, "exec": 2, "right-proof": 85, "did-deactivate": 18},
+	Rule: "mixed histories over all custom modules (transferred tokens, handed-over and deleted denoms, burned tokens, tombstones, rich documents, empty/huge record fields), export at random points, optionally chained; oracle = double-export equality, module genesis validation, InitChain succeeds, probe-set answers byte-identical before/after, re-export identical, models agree with the imported chain; non-trivial = an export with entities of >=3 modules and one of {transferred token, handed-over denom, tombstone, writer deleted}",
+	NonTrivial: func(w *world.World) bool {
+		if lab(w, "export_import") == 0 {
+			return false
+		}
+		mods := 0
+		if lab(w, "aol topic created") > 0 {
+			mods++
+		}
+		if lab(w, "did created") > 0 {
+			mods++
+		}
+		if lab(w, "pnft denom created") > 0 {
+			mods++
+		}
+		return mods >= 3 && lab(w, "pnft transferred")+lab(w, "pnft denom handed over")+lab(w, "did deactivated")+lab(w, "aol writer deleted") > 0
+	},
+	Final: func(w *world.World) error { return w.Apply(world.Step{Kind: "export_import"}) },
+})
+
+var CfgC15 = reg(&MachineCfg{
+	Prop: "C15",
+	Gens: []interface{}{"aol", 34, "did", 22, "pnft", 26, "mixed", 10, "commit", 8},
+	Bias: map[string]int{"right-signers": 85, "exec": 0, "multi": 35, "fee-payer": 50, "right-proof": 80},
+	Rule: "transactions of 1-4 custom-module messages (any mix, succeeding or failing at any position), fees in {0, small, two denoms, more than the balance}, explicit fee payers, add-record with/without a named fee payer; oracle = per-DeliverTx balance/supply diff and all-or-nothing on the three custom stores; non-trivial = a multi-message tx that failed after the ante, or an add-record with a named fee payer",
+	NonTrivial: func(w *world.World) bool {
+		return lab(w, "c15 multi-message tx failed after ante")+lab(w, "c15 add-record with named fee payer") > 0
+	},
+	Step: func(g *G, kind string) *world.Step {
+		if kind != "mixed" {
+			return nil
+		}
+		return &world.Step{Kind: "tx", Tx: g.genMixedTx()}
+	},
+})
